@@ -91,6 +91,7 @@ def parser_level(ctx):
         evs += P.override_events(cmd)
     pairs, n_inter, n_rest = P.pair_items(rng, ctx.quick)
     evs += P.pair_events(pairs, rng)
+    evs += P.triple_events(P.triple_items(rng, ctx.quick), rng)
     byid = {e["id"]: e for e in evs}
     nruns = sum(len(e["runs"]) for e in evs)
     ctx.traces += nruns
@@ -99,7 +100,7 @@ def parser_level(ctx):
     ctx.extra["parser_events"] = dict(events=len(evs), runs_of_real_parser=nruns,
                                       interacting_row_pairs=n_inter, other_row_pairs=n_rest,
                                       kinds={k: sum(1 for e in evs if e["kind"] == k)
-                                             for k in ("empty", "single", "override", "pair")})
+                                             for k in ("empty", "single", "override", "pair", "triple")})
     ctx.sample(dict(event=byid["p:load:band:p+mesh:m3"]) if "p:load:band:p+mesh:m3" in byid else strip(evs[5]))
 
     # ---- model level: the machine over the same cases, both flows -------------------------
@@ -119,7 +120,7 @@ def parser_level(ctx):
     # the model of PhonopyConfParser as built (file pass, flush, option pass): TLC finds the configurations
     # whose settings depend on the route; run on the pairs with a combination rule (cheap), with coverage
     core = {"mesh", "band", "pdos", "qpoints", "qpoints_format", "moment", "moment_order", "read_qpoints"}
-    small = [c for c in cases if c["kind"] == "pair" and {it["k"] for it in c["F"] + c["O"]} <= core]
+    small = [c for c in cases if c["kind"] in ("pair", "triple") and {it["k"] for it in c["F"] + c["O"]} <= core]
     res2 = ctx.tlc("MC_CLI", cfg_text=CFG_MODEL % "TRUE", extra_files={"MC_CLI.tla": mc_of(small)}, requirement=False,
                    workers=4, env=JENV, coverage=True, extra_args=("-continue",))
     uncovered = [a for a in ("ReadFile", "ParseConf", "SetSettings", "Flush", "ReadOptions")
@@ -176,19 +177,24 @@ def report_parser_violations(ctx, found, byid):
             e = byid[eid]
             if e["kind"] == "single":
                 single_bad.add((name, (e["items"][0]["k"], e["items"][0]["e"])))
+    pair_bad = {(name, frozenset(it["k"] for it in byid[eid]["items"]))
+                for name, ids in found.items() for eid in ids if byid[eid]["kind"] == "pair"}
     groups = {}
     for name, ids in found.items():
         for eid in sorted(ids):
             e = byid[eid]
             items = [(it["k"], it["e"]) for it in e["items"]]
-            if e["kind"] == "pair" and any((name, it) in single_bad for it in items):
+            if e["kind"] in ("pair", "triple") and any((name, it) in single_bad for it in items):
                 continue  # already reported by the single-tag case
+            if e["kind"] == "triple" and any((name, frozenset(k for k, _ in pr)) in pair_bad
+                                             for pr in ((items[0], items[1]), (items[0], items[2]), (items[1], items[2]))):
+                continue  # already reported by a pair
             if e["kind"] == "single":
                 key = "parser:%s:%s:%s" % (name, items[0][0], items[0][1])
             elif e["kind"] == "override":
                 key = "parser:%s:%s:%s>%s" % (name, items[0][0], items[1][1], items[0][1])
-            elif e["kind"] == "pair":
-                key = "parser:%s:%s+%s" % (name, items[0][0], items[1][0])
+            elif e["kind"] in ("pair", "triple"):
+                key = "parser:%s:%s" % (name, "+".join(k for k, _ in items))
             else:
                 key = "parser:%s:%s" % (name, e["kind"])
             groups.setdefault((name, key), []).append(e)
